@@ -261,6 +261,61 @@ impl Ranking {
         }
     }
 
+    /// C06/C07 on stores of a few hundred records with limits of 50-200 (|store| <= 10*limit) where the
+    /// number of matches is often an exact multiple of the limit: the selection buffer is compacted
+    /// several times and the stream may end exactly on a compaction.
+    fn large_case(&self, cx: &mut Cx, lang: &'static str, permute: bool) {
+        let limit = *cx.rng.pick(&[50usize, 64, 64, 100, 128, 128, 150, 200]);
+        let k = cx.rng.range(1, 5);
+        let n = if cx.rng.chance(2, 3) { k * limit } else { k * limit + cx.rng.below(limit) };
+        let n = n.min(10 * limit).max(2);
+        let pool = ["metal", "mettle", "medal", "mailbox", "meter", "melon", "memo", "mesh"];
+        let alpha = gen::lower_alphabet(lang);
+        let mut ratings: Vec<usize> = (0..n).map(|i| i * 3 + 1 + cx.rng.below(3)).collect();
+        cx.rng.shuffle(&mut ratings);
+        let share = cx.rng.chance(2, 3); // every record matches the query
+        let recs: Vec<Rec> = (0..n)
+            .map(|i| {
+                let filler = gen::rand_word(&mut cx.rng, &alpha, 2, 6);
+                let t = if share || cx.rng.chance(2, 3) { format!("{} {}", cx.rng.pick(&pool), filler) } else { filler };
+                (5000 + i, t, ratings[i])
+            })
+            .collect();
+        let q = *cx.rng.pick(&["me", "me", "me", "m", "m", "met", "metal", "mailbox me"]);
+        cx.ctx(format!("C06/C07 large lang={} n={} limit={} q={:?}", lang, n, limit, q));
+        let st = St::build_sentinel(lang, &recs, limit);
+        let unl = St::build_sentinel(lang, &recs, n + 1);
+        let got = st.search(q);
+        let all = unl.search(q);
+        cx.eval();
+        cx.count("large stores (limit 50-200)");
+        if all.len() >= 2 * limit && all.len() % limit == 0 {
+            cx.count("large stores whose match count is an exact multiple of the limit");
+        }
+        let exp: Hits = all.iter().take(limit).cloned().collect();
+        if got != exp {
+            let first = got.iter().zip(exp.iter()).position(|(a, b)| a != b);
+            cx.fail("not-the-first-limit-of-unlimited", json!({"lang": lang, "records": n, "record_shape": "'<m-word> <random filler>' with pairwise distinct ratings", "limit": limit, "query": q,
+                "matches": all.len(), "first_difference_at": first, "got_ids_head": got.iter().take(12).map(|h| h.0).collect::<Vec<_>>(), "expected_ids_head": exp.iter().take(12).map(|h| h.0).collect::<Vec<_>>()}));
+        }
+        if permute {
+            for _ in 0..2 {
+                let mut perm = recs.clone();
+                cx.rng.shuffle(&mut perm);
+                let h = St::build_sentinel(lang, &perm, limit).search(q);
+                cx.eval();
+                cx.count("permuted stores");
+                if h != got {
+                    cx.fail("insertion-order-changes-result", json!({"lang": lang, "records": n, "limit": limit, "query": q, "matches": all.len(),
+                        "ids_head": got.iter().take(12).map(|h| h.0).collect::<Vec<_>>(), "permuted_ids_head": h.iter().take(12).map(|h| h.0).collect::<Vec<_>>()}));
+                }
+            }
+        }
+        if !all.is_empty() {
+            cx.key(hparts(&[lang, &n.to_string(), &limit.to_string(), q, &format!("{:?}", recs.get(0))]));
+        }
+    }
+
     fn order(&self, cx: &mut Cx, lang: &'static str) {
         let corpus = corpus_recs();
         let similar = cx.rng.chance(1, 2);
@@ -590,16 +645,16 @@ impl Prop for Ranking {
     }
     fn streams(&self) -> Vec<Stream> {
         match self.0 {
-            Which::Verdicts => vec![Stream::new("stores", 6400, 320000), Stream::new("corpus", 48, 960)],
-            Which::Order => vec![Stream::new("stores", 3200, 160000)],
+            Which::Verdicts => vec![Stream::new("stores", 6400, 320000), Stream::new("corpus", 48, 960), Stream::new("large", 800, 16000)],
+            Which::Order => vec![Stream::new("stores", 3200, 160000), Stream::new("large", 400, 8000)],
             Which::Rules => vec![Stream::new("rules", 8400, 420000)],
             Which::Empty => vec![Stream::new("stores", 32000, 1600000)],
         }
     }
     fn floors(&self) -> Vec<(&'static str, u64, u64)> {
         match self.0 {
-            Which::Verdicts => vec![("truncated (more matches than limit)", 200, 2000), ("beyond the 10x cap (soundness only)", 100, 1000), ("limit 0", 50, 500), ("selection buffer refilled (matches >= 2*limit)", 100, 1000), ("store with tied ratings (set comparison)", 50, 500), ("empty query", 50, 500), ("corpus-store searches", 100, 2000), ("corpus-store searches compared with the unlimited corpus store", 10, 200)],
-            Which::Order => vec![("pair stores", 2000, 20000), ("permuted stores", 2000, 20000), ("searches with >= 2 hits", 300, 3000), ("truncated lists compared across permutations", 30, 300), ("stores of similar words", 500, 5000)],
+            Which::Verdicts => vec![("truncated (more matches than limit)", 200, 2000), ("beyond the 10x cap (soundness only)", 100, 1000), ("limit 0", 50, 500), ("selection buffer refilled (matches >= 2*limit)", 100, 1000), ("store with tied ratings (set comparison)", 50, 500), ("empty query", 50, 500), ("corpus-store searches", 100, 2000), ("corpus-store searches compared with the unlimited corpus store", 10, 200), ("large stores (limit 50-200)", 400, 8000), ("large stores whose match count is an exact multiple of the limit", 40, 800)],
+            Which::Order => vec![("pair stores", 2000, 20000), ("permuted stores", 2000, 20000), ("searches with >= 2 hits", 300, 3000), ("truncated lists compared across permutations", 30, 300), ("stores of similar words", 500, 5000), ("large stores (limit 50-200)", 200, 4000)],
             Which::Rules => vec![("rule exact>typo", 500, 5000), ("rule both>one", 500, 5000), ("rule prefix: exact>tail", 500, 5000), ("rule adjacent>gap", 500, 5000), ("rule first>second", 500, 5000), ("rule identical titles: rating decides", 300, 3000), ("rule equal rating: shorter title first", 300, 3000), ("rule function word: content word first", 1000, 10000)],
             Which::Empty => vec![("searches after further adds", 1000, 10000), ("truncated lists with tied ratings", 500, 5000), ("stores with distinct ratings", 500, 5000), ("limit 0", 100, 1000), ("stores of 13-60 records", 1000, 10000)],
         }
@@ -613,6 +668,8 @@ impl Prop for Ranking {
     fn run(&self, cx: &mut Cx, stream: &str, idx: u64) {
         let lang = LANGS[(idx % 7) as usize];
         match self.0 {
+            Which::Verdicts if stream == "large" => self.large_case(cx, lang, false),
+            Which::Order if stream == "large" => self.large_case(cx, lang, true),
             Which::Verdicts if stream == "corpus" => self.verdicts_corpus(cx, if idx % 2 == 0 { "en" } else { "none" }),
             Which::Verdicts => self.verdicts(cx, lang),
             Which::Order => self.order(cx, lang),
